@@ -478,7 +478,7 @@ var (
 	c16ChartNm = []string{"mychart", "mychart", "mychart", "mychart", "mychart", "..", "../outside", "../../outside", ".", "a/b", "/abs", "$OUT", "$OUT/pwn", "lnk", "mychart/../..", "", "C:\\x", "..\\..\\outside", "/c16-abs-escape", "lnk/x"}
 	c16PlantAt = []string{"mychart", "mychart/templates", "mychart/values.yaml", "mychart/Chart.yaml", "lnk", "a", "mychart/charts", "mychart/a", "templates", "x", "mychart/lnk", "sub", "sub/mychart", "mychart/x", "plugin.yaml", "outside", "abs"}
 	c16PlantTo = []string{"$OUT", "$OUT", "$OUT/canary", "$OUT/missing", "REL/outside", "REL/outside/canary", "REL/outside/sub", "REL/rootcanary", "..", "/", "$ROOT/rootcanary", "$DEST", ".", "$ROOT/mid", "/c16-abs-escape"}
-	c16URLs    = []string{"/charts/mychart-1.0.0.tgz", "/charts/mychart-1.0.0.tgz", "/charts/mychart-1.0.0.tgz", "/charts/mychart-1.0.0.tgz", "/mychart", "/", "/..", "/a/%2e%2e", "/x/..%2f..%2fy.tgz", "/a%5c..%5cb.tgz", "/.", "/a/", "/%2e%2e/", "//", "/a/..%2f", "/x/%2e"}
+	c16URLs    = []string{"/charts/mychart-1.0.0.tgz", "/charts/mychart-1.0.0.tgz", "/charts/mychart-1.0.0.tgz", "/charts/mychart-1.0.0.tgz", "/mychart", "/", "/..", "/a/%2e%2e", "/x/..%2f..%2fy.tgz", "/x/..%2f..%2f..%2foutside%2fy.tgz", "/x/..%2f..%2fy.tgz", "/a%5c..%5cb.tgz", "/.", "/a/", "/%2e%2e/", "//", "/a/..%2f", "/x/%2e"}
 )
 
 func c16ChartYAML(name string) string {
@@ -500,6 +500,18 @@ func c16GenName(t *rapid.T, hostile bool, last string) string {
 	if last != "" && rapid.IntRange(0, 2).Draw(t, "viaLink") == 0 {
 		return last + rapid.SampledFrom([]string{"/pwned", "/canary", "\\pwned", "/sub/canary2"}).Draw(t, "tail")
 	}
+	if rapid.IntRange(0, 2).Draw(t, "singleFeature") == 0 {
+		// one hostile feature only: a hostile prefix (or one hostile component) in an otherwise benign name
+		a, b := rapid.SampledFrom(c16Benign).Draw(t, "comp"), rapid.SampledFrom(c16Benign).Draw(t, "comp")
+		switch rapid.IntRange(0, 3).Draw(t, "feature") {
+		case 0:
+			return "mychart/" + a + "/" + rapid.SampledFrom(c16Hostile).Draw(t, "comp") + "/" + b
+		case 1:
+			return "mychart/" + rapid.SampledFrom([]string{"c:/", "C:/", "/", "\\", "..\\", "../", "./", "c:\\", "a\\", "$OUT/", "a/../../../../outside/", "a\\..\\..\\..\\..\\outside\\"}).Draw(t, "inner") + a
+		default:
+			return rapid.SampledFrom(c16Prefix[2:]).Draw(t, "prefix") + a + "/" + b
+		}
+	}
 	n := rapid.IntRange(1, 5).Draw(t, "nc")
 	var sb strings.Builder
 	sb.WriteString(rapid.SampledFrom(c16Prefix).Draw(t, "prefix"))
@@ -519,11 +531,18 @@ func c16GenName(t *rapid.T, hostile bool, last string) string {
 	return sb.String()
 }
 
-func c16GenEntries(t *rapid.T, hostile bool, top string, max int) []c16Entry {
+// c16GenEntries draws 1..max members. style 0 = all benign, 1 = exactly one hostile member among benign ones (so that
+// a single missing check lets the whole archive through), 2 = every member hostile.
+func c16GenEntries(t *rapid.T, style int, top string, max int) []c16Entry {
 	var es []c16Entry
 	lastLink := ""
 	n := rapid.IntRange(1, max).Draw(t, "ne")
+	theOne := -1
+	if style == 1 {
+		theOne = rapid.IntRange(0, n-1).Draw(t, "hostileIdx")
+	}
 	for i := 0; i < n; i++ {
+		hostile := style == 2 || i == theOne
 		e := c16Entry{Body: c16S(fmt.Sprintf("PWNED-%d\n", i))}
 		e.Name = c16S(c16GenName(t, hostile, lastLink))
 		if top != "mychart" && strings.HasPrefix(string(e.Name), "mychart/") {
@@ -570,9 +589,9 @@ func c16GenEntries(t *rapid.T, hostile bool, top string, max int) []c16Entry {
 
 func c16GenA(t *rapid.T) *c16ACase {
 	c := &c16ACase{}
-	c.Target = rapid.SampledFrom([]string{"extract", "expand", "pull", "extract", "expand", "loadfiles", "extract", "expand", "load", "extract", "expand",
-		"pull", "extract", "expand", "expandfile", "loadfiles", "load"}).Draw(t, "target")
-	hostile := rapid.IntRange(0, 9).Draw(t, "hostile") < 6
+	c.Target = rapid.SampledFrom([]string{"extract", "expand", "loadfiles", "pull", "load", "extract", "expand", "loadfiles", "pull", "extract", "expand",
+		"load", "extract", "expand", "expandfile", "loadfiles", "pull", "load"}).Draw(t, "target")
+	style := []int{0, 0, 1, 1, 1, 1, 2, 2, 2, 1}[rapid.IntRange(0, 9).Draw(t, "style")]
 	chartName := "mychart"
 	if rapid.IntRange(0, 3).Draw(t, "oddChartName") == 0 {
 		chartName = rapid.SampledFrom(c16ChartNm).Draw(t, "chartName")
@@ -582,10 +601,10 @@ func c16GenA(t *rapid.T) *c16ACase {
 		top = rapid.SampledFrom([]string{"..", ".", "", "x/y", "C:"}).Draw(t, "top")
 	}
 	chartYAML := c16Entry{Name: c16S(top + "/Chart.yaml"), Type: "0", Body: c16S(c16ChartYAML(chartName))}
-	rest := c16GenEntries(t, hostile, top, 5)
+	rest := c16GenEntries(t, style, top, 5)
 	if rapid.IntRange(0, 11).Draw(t, "nested") == 0 {
 		sub := []c16Entry{{Name: "sub/Chart.yaml", Type: "0", Body: c16S(c16ChartYAML("sub"))}}
-		sub = append(sub, c16GenEntries(t, hostile, "sub", 2)...)
+		sub = append(sub, c16GenEntries(t, style, "sub", 2)...)
 		rest = append(rest, c16Entry{Name: c16S(top + "/charts/sub-1.0.0.tgz"), Type: "0", Nested: sub})
 	}
 	switch rapid.IntRange(0, 9).Draw(t, "chartYamlPos") {
